@@ -218,8 +218,19 @@ def run(ctx):
     reg_ = [pos for pos, t in mfull.iter_calls() if (callee_of(t) or '').endswith('add_reference_origin')]
     sp_ = [q for q in calls(mfull, r'str>?::strip_prefix$') if wr_ and any(w_ in mfull.reach_from(q) for w_ in wr_) and any(h in _E.loops_containing(mfull, [q]) for h in _E.loops_containing(mfull, wr_))]
     oku = bool(wr_) and bool(reg_) and bool(sp_)
+    from flow import forward_taint as _ft
     for q in sp_:
         sw = _sw(mfull, q)
+        hops = 0
+        while not sw and hops < 3:
+            # `strip_prefix(p).map(|suffix| format!(..))`: the test of the mapped Option stands for the test of the match
+            hops += 1
+            tl = _ft(mfull, {mfull.blocks[q[0]]['term']['dst']['l']})
+            nxt = [p2 for p2, t2 in mfull.iter_calls() if call_matches(t2, r'Option::<T>::(map|and_then|filter|inspect|cloned|copied|as_deref|as_ref)$') and t2['args'] and is_local_op(t2['args'][0]) and t2['args'][0]['l'] in tl]
+            if not nxt:
+                break
+            q = nxt[0]
+            sw = _sw(mfull, q)
         if not sw:
             oku = False
             continue
